@@ -574,7 +574,7 @@ def name_plan(kinds, rng):
             names.append((rng.choice(prior) + "/" + base) if prior and rng.random() < 0.3 else base)
         else:
             ext = {"data": ".bin", "empty": ".nil"}[k]
-            leaf = "f%d%s" % (i, ext)
+            leaf = "f%d%s" % (i, ext if rng.random() < 0.8 else ".")      # a name ending in '.' now and then
             if dirs and rng.random() < 0.6:
                 d = rng.choice(dirs)
                 leaf = d + "/" + (("sub%d/" % i) if rng.random() < 0.3 else "") + leaf
@@ -656,6 +656,8 @@ def families(rng, tier):
              ("last.bin", "data")])]})
     specs.append({"how": "py7zr", "chain": "lzma2", "label": "py7zr-sessions", "sessions": [
         sess([("a.txt", "data"), ("b.txt", "data")]), sess([("c.txt", "data"), ("d.txt", "data"), ("e.txt", "data")])]})
+    specs.append({"how": "py7zr", "chain": "lzma2", "label": "py7zr-sessions", "sessions": [
+        sess([("one.txt", "data")]), sess([("c.txt", "data"), ("sub", "dir"), ("sub/d.txt", "data"), ("e.txt", "data")])]})
     specs.append({"how": "py7zr", "chain": "copy", "label": "py7zr-sessions", "sessions": [
         sess([("s", "dir"), ("s/a.txt", "data"), ("s/b.txt", "data")]), sess([("t", "dir"), ("t/c.txt", "data"), ("t/d.txt", "data")])]})
     specs.append({"how": "py7zr", "chain": "deflate", "label": "py7zr-sessions", "sessions": [
